@@ -10,14 +10,15 @@ import numpy as np
 from hypothesis import strategies as st
 
 from ..common import (CaseInfo, PamsCrash, Recorder, VERIF_DIR, Violation, _new_result, derive_seed, run_hypothesis)
-from ..strategies import crossing_pair, sim_cases
+from ..strategies import crossing_pair, sample_cases, sim_cases
 from ._sim_common import summarize
 
 ID = "C07"
-RULE = ("Hypothesis generates configurations that mix scripted agents with (traced and plain) built-in FCN, market-share FCN, "
+RULE = ("Three cases in four: Hypothesis generates configurations that mix scripted agents with (traced and plain) built-in FCN, market-share FCN, "
         "market-maker, arbitrage and test agents, Market and IndexMarket, correlated volatile fundamentals, and the built-in "
         "events (fundamental shock, order mistake, price limit, trading halt) plus probe events, 1-3 sessions of 1-40 steps "
-        "(120 thorough), and a runner seed. The digest (SHA-256 over every logger record, every agent consultation and "
+        "(120 thorough), and a runner seed; one case in four is one of the repository's sample configurations (CI2002, fat_finger, "
+        "price_limit, shock_transfer, test, trading_halt) scaled down to 4-30 agents per group and 40-180 steps. The digest (SHA-256 over every logger record, every agent consultation and "
         "callback, every hook invocation, all market series, final books and holdings, serialised by field values) of the run "
         "must be identical (a) for two runs in one process, the second after 1000 draws from random / numpy.random and an "
         "earlier run of a different configuration B (independent, or derived from A: same ids but other volatilities / "
@@ -136,7 +137,7 @@ def make_check(n_workers):
         changed = ans[0][2]["digest"] != ref["digest"]
         nt = len(ref["classes"]) >= 4 and ref["n_logs"] >= 50 and any(c for c in ref["classes"] if "Shock" in c or "Rule" in c or "Probe" in c)
         return CaseInfo(nontrivial=nt, classes=(["seed_changes_outcome"] if changed else ["seed_irrelevant"]) + [f"hash_seeds_{1 + len(hs)}"] + ref["classes"]
-                        + (["related_B"] if case.get("related") else []),
+                        + (["related_B"] if case.get("related") else []) + (["sample_" + A["sample"]] if "sample" in A else []),
                         steps=ref["records"], sample={"case": summarize(A), "digest": ref["digest"], "records": ref["records"], "classes": ref["classes"],
                                                      "hash_seeds": [0] + hs})
 
@@ -158,7 +159,8 @@ class PamsCrashProxy(PamsCrash):
 
 @st.composite
 def pair_cases(draw, tier):
-    A = draw(cases(tier))
+    # one case in four is one of the repository's own sample configurations (scaled down), the others are generated
+    A = draw(st.one_of(cases(tier), cases(tier), cases(tier), sample_cases()))
     kind = draw(st.sampled_from(["independent", "related", "related", "none"]))
     if kind == "none":
         return {"A": A, "B": None, "related": False}
